@@ -3,6 +3,7 @@ package main
 import (
 	"encoding/hex"
 	"math/rand"
+	"strconv"
 	"strings"
 
 	"github.com/theQRL/go-qrllib/common"
@@ -252,6 +253,80 @@ func c16(r *rand.Rand, tier string, tr *trace.Buf) {
 				},
 				func() res { return strRes(func() string { return xmssjs.GetXMSSAddressFromPK(v.s) }) })
 		}
+	}
+	// every byte value at the first, a middle and the last character of an otherwise well-formed string:
+	// exactly the 22 hexadecimal digits may decode (short arguments only: address validity and the XMSS pk)
+	{
+		a := make([]byte, common.AddressSize)
+		r.Read(a)
+		a[0], a[1] = 0x10, 0x05
+		h := hex.EncodeToString(a)
+		for _, pos := range []int{0, len(h) / 2, len(h) - 1} {
+			for c := 0; c < 256; c++ {
+				s := h[:pos] + string([]byte{byte(c)}) + h[pos+1:]
+				emit1("dvalid", "byte-value", s, common.AddressSize,
+					func(b []byte) res {
+						var p [common.AddressSize]uint8
+						copy(p[:], b)
+						return boolRes(func() bool { return dilithium.IsValidDilithiumAddress(p) })
+					},
+					func() res { return boolRes(func() bool { return dilithiumjs.IsValidDilithiumAddress(s) }) })
+				emit1("xvalid", "byte-value", s, common.AddressSize,
+					func(b []byte) res {
+						var p [common.AddressSize]uint8
+						copy(p[:], b)
+						return boolRes(func() bool { return xmss.IsValidXMSSAddress(p) })
+					},
+					func() res { return boolRes(func() bool { return xmssjs.IsValidXMSSAddress(s) }) })
+			}
+		}
+		ph := hex.EncodeToString(xpk[:])
+		for _, pos := range []int{0, 7, len(ph) - 1} {
+			for c := 0; c < 256; c++ {
+				s := ph[:pos] + string([]byte{byte(c)}) + ph[pos+1:]
+				emit1("xaddr", "byte-value", s, xmss.ExtendedPKSize,
+					func(b []byte) res {
+						var p [xmss.ExtendedPKSize]uint8
+						copy(p[:], b)
+						return strRes(func() string { a := xmss.GetXMSSAddressFromPK(p); return hex.EncodeToString(a[:]) })
+					},
+					func() res { return strRes(func() string { return xmssjs.GetXMSSAddressFromPK(s) }) })
+			}
+		}
+	}
+	// genuine XMSS signatures of TALL trees (heights 8..20): leaf 0 is computed for real, all other leaves are
+	// synthetic (leaf hook), so that the signature at index 0 verifies under the core and must under the wrapper
+	{
+		hs := []int{8, 12, 16, 20}
+		if tier == "thorough" {
+			hs = []int{8, 10, 12, 14, 16, 18, 20}
+		}
+		xmss.VerifLeafHook = func(hf xmss.HashFunction, leaf []uint8, idx uint32) bool {
+			if idx == 0 {
+				return false
+			}
+			b := []byte{byte(idx), byte(idx >> 8), byte(idx >> 16), byte(idx >> 24), 0x5a}
+			for i := range leaf {
+				leaf[i] = b[i%5] ^ byte(i*7)
+			}
+			return true
+		}
+		for _, h := range hs {
+			var sd [48]uint8
+			r.Read(sd[:])
+			k := xmss.NewXMSSFromSeed(sd, uint8(h), xmss.HashFunction(h/2%3), common.SHA256_2X)
+			pk := k.GetPK()
+			m := "tall tree message"
+			sig, err := k.Sign([]byte(m))
+			if err != nil {
+				continue
+			}
+			for _, pre := range []string{"", "0x"} {
+				emitX("tall-h"+strconv.Itoa(h)+"-valid", m, pre+hex.EncodeToString(sig), pre+hex.EncodeToString(pk[:]))
+				emitX("tall-h"+strconv.Itoa(h)+"-wrong-message", m+"!", pre+hex.EncodeToString(sig), pre+hex.EncodeToString(pk[:]))
+			}
+		}
+		xmss.VerifLeafHook = nil
 	}
 	// ---------------- address validity, both schemes
 	for q := 0; q < npk*8; q++ {
